@@ -230,6 +230,26 @@ def main(argv=None):
         path = replay_mod.make_replay(prop, oid, a, args.repo, first.get(a["unit"]))
         tail = "" if path[1] else " no-failing-input-found"
         vio_lines.append("VIOLATION property=%s replay=%s obligation=%s%s" % (prop, path[0], oid, tail))
+    # auxiliary Kani harnesses (loop-complete proofs over extracted leaves Verus cannot read)
+    kani_results = []
+    for spec in P.get("kani", []):
+        from . import kani as kani_mod
+        kr = kani_mod.run_harness(spec, args.repo)
+        kani_results.append(kr)
+        oid = "kani/%s" % spec["harness"]
+        if kr["status"] == "refuted":
+            kf = registry.match_finding(findings, prop, oid)
+            if kf:
+                known_lines.append("KNOWN-FINDING: property=%s %s -- %s" % (prop, oid, kf.get("what", "")))
+            else:
+                a = dict(message="Kani: " + "; ".join(kr.get("failed_checks", []))[:300], detail=dict(kani=kr.get("detail", "")[-1200:]), unit=None, fn=spec["harness"], cls="refuted", props=[prop])
+                path = replay_mod.make_replay(prop, oid, a, args.repo, None)
+                tail = "" if path[1] else " no-failing-input-found"
+                vio_lines.append("VIOLATION property=%s replay=%s obligation=%s%s" % (prop, path[0], oid, tail))
+                real.append((oid, a))
+        elif kr["status"] != "proved":
+            infra.append("kani %s: %s" % (spec["harness"], kr.get("detail", "")[-200:]))
+    P = dict(P, _kani_results=kani_results)
     # bounded stand-ins for the parts of the property no contract decides: run on every run, labelled bounded
     standin_results, standin_found = replay_mod.standin_search(prop, args.repo, tier, seed)
     P = dict(P, _standin=standin_results)
@@ -353,6 +373,12 @@ def write_evidence(prop, P, tier, seed, runs, first, obs, failures, violations, 
     kres = P.get("_kani_results")
     if kres:
         cov["kani_harnesses"] = kres
+        for kr in kres:
+            cov["obligations"] += kr.get("checks", 0)
+            cov["discharged"] += (kr.get("checks", 0) - kr.get("failed", 0)) if kr.get("status") == "proved" else 0
+            cov["solver_ms"] = (cov.get("solver_ms") or 0) + 1000.0 * (kr.get("solver_s") or 0)
+        cov["back_end"] += "; Kani 0.68 / CBMC 6.11 for the floating-point leaf (coverage.kani_harnesses)"
+        cov["checker_cmd"] += "; " + "; ".join(kr.get("cmd", "") for kr in kres)
     ev = dict(property_id=prop, tier=tier, seed=seed, level=level, coverage=cov,
               assumptions=P.get("assumptions", []) + ["see coverage.trusted_base for the mechanically scanned list"],
               wall_s=round(wall, 2), violations=len(real))
